@@ -4,6 +4,7 @@ import (
 	"fmt"
 	"sort"
 	"strings"
+	"time"
 
 	"github.com/metal-toolbox/audito-maldito/internal/simrt"
 )
@@ -23,7 +24,7 @@ func init() {
 			{Name: "l1-programs", Fn: scnC03L1, Weight: 3, Group: c03Group},
 			{Name: "syncmap-linearizable", Fn: scnC03SyncMap, Weight: 1, Group: c03Group},
 		},
-		Rule: "tape-generated concurrent programs (2-5 tasks, <=10 tracker operations: logins, invalid logins, events of one or two sessions incl. one session's events from two tasks, events of a session the tracker never saw a LOGIN record for, cleanup with a past or future cut-off; one program in six: the LOGIN record that consumes a waiting login delivered concurrently with the login of the next sshd process that has the same PID) x schedules " +
+		Rule: "tape-generated concurrent programs (2-5 tasks, <=10 tracker operations: logins, invalid logins, events of one or two sessions incl. one session's events from two tasks, events of a session the tracker never saw a LOGIN record for, cleanup with a past or future cut-off; one program in six is about a reused PID: the LOGIN record that consumes a waiting login delivered concurrently with the login of the next sshd process that has the same PID, or a login that has waited for 70 s replaced by the next process's login concurrently with that process's LOGIN record) x schedules " +
 			"(baseline, systematic single-preemption sweep over (tasks completed first, preempted task, point), PCT d<=3, random, biased); " +
 			"plus the GenericSyncMap both maps are built on: concurrent Store/Load/Has/Delete/Len/Iterate/WithLockedValueDo histories checked for linearizability against a plain map (porcupine); " +
 			"non-trivial = at least one preemption of a task that was still runnable (a context switch inside an operation sequence); " +
@@ -36,10 +37,12 @@ func init() {
 type c03Program struct {
 	World *L1World
 	// Pre is delivered sequentially before the tasks start
-	Pre    []L1Op
-	Prog   [][]L1Op
-	Probes []L1Op
-	Desc   []string
+	Pre []L1Op
+	// PreSleep is how long (fake clock) the state left by Pre has existed when the tasks start
+	PreSleep time.Duration
+	Prog     [][]L1Op
+	Probes   []L1Op
+	Desc     []string
 }
 
 // c03MaxOrders bounds the number of sequential orders executed as the reference of one program.
@@ -81,19 +84,32 @@ func genC03Reuse(t *simrt.Tape) *c03Program {
 	}
 	s0, s1 := w.Sessions[0], w.Sessions[1]
 	p.Pre = []L1Op{{Kind: "login", S: 0}}
-	var evs []L1Op
-	for i := 0; i < len(s0.Events)-1; i++ {
-		evs = append(evs, L1Op{Kind: "event", S: 0, E: i})
+	if t.Choose(2, "reuse.variant") == 1 {
+		// the first login never gets its session and has been waiting for more than a minute (no
+		// sweep has run yet); the login of the next process with that PID is delivered
+		// concurrently with the LOGIN record of its own session
+		p.PreSleep = 70 * time.Second
+		var evs []L1Op
+		for i := 0; i < len(s1.Events)-1; i++ {
+			evs = append(evs, L1Op{Kind: "event", S: 1, E: i})
+		}
+		p.Prog = [][]L1Op{{{Kind: "login", S: 1}}, evs}
+		p.Probes = append(p.Probes, L1Op{Kind: "event", S: 1, E: len(s1.Events) - 1})
+	} else {
+		var evs []L1Op
+		for i := 0; i < len(s0.Events)-1; i++ {
+			evs = append(evs, L1Op{Kind: "event", S: 0, E: i})
+		}
+		p.Prog = [][]L1Op{evs, {{Kind: "login", S: 1}}}
+		if t.Choose(3, "reuse.cleanup") == 2 {
+			p.Prog = append(p.Prog, []L1Op{{Kind: "cleanup", Cut: -3600}})
+		}
+		for i := range s1.Events {
+			p.Probes = append(p.Probes, L1Op{Kind: "event", S: 1, E: i})
+		}
+		p.Probes = append(p.Probes, L1Op{Kind: "event", S: 0, E: len(s0.Events) - 1})
 	}
-	p.Prog = [][]L1Op{evs, {{Kind: "login", S: 1}}}
-	if t.Choose(3, "reuse.cleanup") == 2 {
-		p.Prog = append(p.Prog, []L1Op{{Kind: "cleanup", Cut: -3600}})
-	}
-	for i := range s1.Events {
-		p.Probes = append(p.Probes, L1Op{Kind: "event", S: 1, E: i})
-	}
-	p.Probes = append(p.Probes, L1Op{Kind: "event", S: 0, E: len(s0.Events) - 1})
-	p.Desc = append(p.Desc, fmt.Sprintf("before: %v", p.Pre))
+	p.Desc = append(p.Desc, fmt.Sprintf("before: %v, then %v pass", p.Pre, p.PreSleep))
 	for ti, ops := range p.Prog {
 		var ss []string
 		for _, o := range ops {
@@ -111,6 +127,7 @@ func genC03Program(t *simrt.Tape) *c03Program {
 	k := NewKaudit()
 	w := &L1World{}
 	nSess := 1 + t.Choose(2, "nsess")
+	ended := map[int]bool{}
 	p := &c03Program{World: w}
 	for si := 0; si < nSess; si++ {
 		pid := 4000 + si*17
@@ -127,6 +144,7 @@ func genC03Program(t *simrt.Tape) *c03Program {
 		}
 		if t.Choose(3, "ends") == 0 {
 			s.Events = append(s.Events, k.UserMsg("CRED_DISP", ses, pid, s.UID, true, 0))
+			ended[si] = true
 		}
 		// probe event (delivered sequentially after all tasks returned)
 		s.Events = append(s.Events, k.UserMsg("USER_LOGIN", ses, pid, s.UID, true, 0))
@@ -158,7 +176,9 @@ func genC03Program(t *simrt.Tape) *c03Program {
 	}
 	if len(evs) == 0 {
 		// nothing concurrent from session 0's records
-	} else if len(evs) >= 2 && t.Choose(3, "split.s0") == 0 {
+	} else if sp := t.Choose(3, "split.s0"); len(evs) >= 2 && (sp == 0 || (sp == 1 && ended[0])) {
+		// (a session that ends inside the concurrent phase is split twice as often: its credential
+		// disposal then races with an earlier record of the same session)
 		// the reassembler hands events to the correlator from two goroutines (record push
 		// and time-out maintenance): events of one session delivered by two tasks
 		k := 1 + t.Choose(len(evs)-1, "split.at")
@@ -230,7 +250,7 @@ func scnC03L1(rc *RunCtx) {
 	}
 	key := progKey(p.World, p.Prog, p.Probes)
 	if len(p.Pre) > 0 {
-		key = hashStr(key, fmt.Sprint(p.Pre))
+		key = hashStr(key, fmt.Sprint(p.Pre, p.PreSleep))
 	}
 	rc.CaseKey(key)
 
@@ -270,6 +290,7 @@ func scnC03L1(rc *RunCtx) {
 			return
 		}
 		rec.NoPoint = false
+		time.Sleep(p.PreSleep)
 		rc.Sim.Count("c03.pid_reuse_program")
 	}
 	pr := spawnProgram(rc, p.World, tr, p.Prog)
@@ -304,7 +325,7 @@ func scnC03L1(rc *RunCtx) {
 
 	ce := seqCache[key]
 	if ce == nil {
-		outs, n := p.World.seqOutcomes(p.Pre, p.Prog, p.Probes, c03MaxOrders+1)
+		outs, n := p.World.seqOutcomes(p.Pre, p.PreSleep, p.Prog, p.Probes, c03MaxOrders+1)
 		ce = &seqCacheEntry{outs, n}
 		seqCache[key] = ce
 	}
